@@ -13,7 +13,10 @@ supporting:     (no model; evidence only, both tiers)
                   OTHER threads' sub-resources, the page allocator scribbles over returned pages
                   (oracle dtor_after_page_free: release() = all destructors, then all pages)
                 * several Exclusive / Swiss resources on one real PageHeap (CachedPageAllocator with a
-                  small ring) through many allocate / release cycles (oracle overlap_block / page_twice)
+                  small ring) or directly on NewDeletePageAllocator, page sizes 128 .. 65536, alignments up to
+                  (and beyond) the page size, through many allocate / release cycles; a forwarding spy checks
+                  the library allocators' side of the contract (oracle misaligned / not_owned / overlap_block /
+                  page_twice / page_misaligned / leak_page)
 """
 from vlib.core import *
 
@@ -171,9 +174,13 @@ def pageheap_part(ctx, exe, dist, cycles=400):
     """the resource on the library's own allocator stack (real PageHeap with a small page cache):
     several resources share it through many allocate / release cycles; same oracle (no model)"""
     runs = dist.setdefault("pageheap_runs", [])
-    for ps, cap in [(256, 8), (4096, 8), (128, 4), (512, 16)]:
+    # cap 0 = directly on NewDeletePageAllocator; page sizes above the system page size included: the
+    # resource relies on page_size-aligned pages for every request with alignment <= page size
+    for ps, cap in [(256, 8), (4096, 8), (128, 4), (512, 16), (8192, 8), (16384, 0), (65536, 4), (8192, 0)]:
         seed = ctx.rng.randrange(1, 10 ** 6)
-        r = sh([str(exe), "pageheap", str(seed), str(ps), str(cap), str(cycles)], timeout=600)
+        if ps > 4096:
+            cycles = min(cycles, 1500)
+        r = sh([str(exe), "pageheap", str(seed), str(ps), str(cap), str(cycles if ps <= 4096 else max(150, cycles // 2))], timeout=900)
         last = r.stdout.strip().splitlines()[-1] if r.stdout.strip() else "<no output>"
         runs.append(last)
         if r.returncode != 0 or "!ORACLE" in r.stdout:
@@ -192,7 +199,7 @@ def run(ctx):
     ctx.assumptions += [
         "page size is a power of two and >= sizeof(PageArray) (NewDeletePageAllocator::set_page_size applies bit_ceil; a custom PageAllocator with another size is outside the theorems)",
         "requested alignments are powers of two (std::pmr contract)",
-        "the page allocator returns page_size-aligned pages disjoint from every region currently held; the upstream returns blocks aligned as requested and disjoint from every region currently held",
+        "ASSUMPTION on the page allocator (not documented by the PageAllocator interface): it returns page_size-aligned pages disjoint from every region currently held (for the library's own allocators: pinned by gen_page_allocator_alignment and checked at run time by the harness's spy for page sizes 128..65536); the upstream returns blocks aligned as requested and disjoint from every region currently held",
         "destructors registered with the resource do not call back into it",
         "shared/swiss variants: one exclusive resource per thread (C19 slot privacy); covered by supporting concurrent runs in the thorough tier, not by a theorem here",
     ]
